@@ -6,7 +6,7 @@ Proof:  Molli.Props.C11 over Molli.Model.Geom (any field): rotVec_orth/det/maps(
         substructure_moves_only_selected, substructure_view_moves_its_atoms,
         substructure_view_survives_parent_edits (+ substructure_cached_rows_counterexample), moved_part_rigid, dihedral_after_rotation, rotate_dihedral_hits_target
         (+ _counterexample / _shipped_partial for the code as shipped: D23), centroid_after_centering,
-        ens_conformerwise, align_reports_achieved, align_rigid.
+        ens_conformerwise, align_reports_achieved, align_final_pose, align_rigid.
 Tie:    (i) rational test points (Pythagorean quadruples, tangent half-angle): the real numpy functions vs the
         model run over exact rationals in the Lean driver, entry-wise, tolerance 1e-9;
         (ii) the spec predicates the theorems establish (orth, det, maps, fixes-axis, angle, frame, rigid,
@@ -619,6 +619,192 @@ def sec_molecules(ctx, B, nmol):
 # ------------------------------------------------------------------------------------------
 # E. ensembles and alignment
 # ------------------------------------------------------------------------------------------
+def align_checks(ctx, B, ml, els, edges, confs, idxs, refc, vec, sample=False, best=None):
+    """ConformerEnsemble.align_to_ref_coords and Molecule.align_to_ref_coords on the conformers `confs` (molecules over the same
+    atoms), candidate index lists `idxs` (any number of sites / symmetry mappings), reference coordinates `refc` (centred)."""
+    rng = ctx.rng
+    n, nc, kcore = len(els), len(confs), len(refc)
+    quads = G.some_quads(n, rng, 25)
+    ens = ml.ConformerEnsemble(confs)
+    refmol = G.build_molecule(ml, ["C"] * kcore, [(i, i + 1) for i in range(kcore - 1)], refc, name="ref")
+    refsub = refmol.substructure(list(range(kcore)))
+    target_ref = refc + (0 if vec is None else vec)
+
+    def rigid_all(before, after, tag, kind):
+        for k in range(nc):
+            d_ok, v_ok = G.rigid_same(before[k], after[k], quads)
+            if not d_ok:
+                ctx.violation(f"C11:{kind}-changes-distances", f"conformer {k}: interatomic distances changed", tag)
+            if not v_ok:
+                ctx.violation(f"C11:{kind}-changes-handedness", f"conformer {k}: signed volumes changed", tag)
+
+    def run_align(obj):
+        calls = []
+
+        def func(P, Q):
+            R, r = G.kabsch(np.array(P), np.array(Q))
+            calls.append((np.array(P, dtype=float).copy(), R.copy(), r))
+            return R, r
+        ret = obj.align_to_ref_coords(func, idxs, refsub, vec)
+        return ret, calls
+
+    def claimed(cands):
+        """the mapping the call claims: the first one whose reported value is the smallest (and below 100)"""
+        best_i, best_r = None, 100.0
+        for i, c in enumerate(cands):
+            if c[2] < best_r:
+                best_i, best_r = i, c[2]
+        return best_i
+
+    def achieved_ok(final_k, returned, cands, who, tag):
+        ok = True
+        ach_min = min(G.rmsd(final_k[ix], target_ref) for ix in idxs)
+        if abs(ach_min - float(returned)) > 1e-8:
+            ctx.violation("C11:align-reports-wrong-rmsd", f"{who}: returned {float(returned)!r}, smallest RMSD achieved over the mappings {ach_min!r}", tag)
+            ok = False
+        ci = claimed(cands) if len(cands) == len(idxs) else None
+        if ci is not None:
+            ach = G.rmsd(final_k[idxs[ci]], target_ref)
+            if abs(ach - float(returned)) > 1e-8:
+                ctx.violation("C11:align-reports-wrong-rmsd",
+                              f"{who}: returned {float(returned)!r} (reported for mapping #{ci} of {len(idxs)}), but the final coordinates of that mapping "
+                              f"are {ach!r} from the reference", tag)
+                ok = False
+            ctx.count(f"align.winning-mapping-position={ci}/{len(idxs)}")
+        return ok
+
+    start = ens.coords.copy()
+    ret, calls = run_align(ens)
+    final = ens.coords.copy()
+    tag = {"op": "ens.align_to_ref_coords", "coords": start.tolist(), "idxs": idxs, "ref": refc.tolist(),
+           "vec": None if vec is None else vec.tolist(), "returned": [float(x) for x in ret], "site_the_reference_was_taken_from": best}
+    rigid_all(start, final, tag, "align")
+    for kc in range(nc):
+        cands = calls[kc * len(idxs):(kc + 1) * len(idxs)]
+        achieved_ok(final[kc], ret[kc], cands, f"conformer {kc}", tag)
+        if len(cands) != len(idxs):
+            ctx.disagree("align: the callback was not called once per candidate mapping and conformer", tag, len(calls), nc * len(idxs))
+            continue
+        req = (f"align {n} {ftoks(start[kc])} {kcore} {ftoks(refc)} " + ("0 " if vec is None else f"1 {ftoks(vec)} ") + f"{len(idxs)} " +
+               " ".join(f"{len(ix)} {' '.join(map(str, ix))} {ftoks(c[1])} {fbits(c[2])}" for ix, c in zip(idxs, cands)))
+
+        def cb(line, out, kc=kc, tag=tag, final=final, ret=ret):
+            p = out.split()
+            if len(p) < 4 or p[0] != "ok":
+                ctx.disagree("align: model gives no result", tag, "ok", out[:200])
+                return
+            r = G.to_float(Fraction(p[1][2:]))
+            arr = G.model_array(" ".join(p[3:]), "c", final[kc].shape)
+            if abs(r - float(ret[kc])) > 1e-12 or arr is None or not G.close(final[kc], arr, 1e-9):
+                ctx.disagree("align_to_ref_coords differs from the model", tag, [float(ret[kc]), final[kc].tolist()], out[:1500])
+        B.add(req, cb)
+    # pose independence (sampled): another initial pose of the same ensemble ends in the same place
+    _, Rp = rational_rotation(rng)
+    ens2 = ml.ConformerEnsemble(confs)
+    ens2.coords = start @ Rp + np.array([rng.range(-40, 40) / 8 for _ in range(3)])
+    ret2, _ = run_align(ens2)
+    unique = True
+    for kc in range(nc):
+        rs = sorted(c[2] for c in calls[kc * len(idxs):(kc + 1) * len(idxs)])
+        if len(rs) > 1 and rs[1] - rs[0] < 1e-6:
+            unique = False
+        for ix in idxs:
+            pts = start[kc][ix]
+            if np.linalg.svd(pts - pts.mean(axis=0), compute_uv=False)[-1] <= 0.3:
+                unique = False
+    if unique:  # every core spans 3-D and the winner is clear: the result is determined
+        if not G.close(ens2.coords, final, 1e-6) or not G.close(np.array(ret2, dtype=float), np.array(ret, dtype=float), 1e-6):
+            ctx.violation("C11:align-depends-on-initial-pose", "aligning a rigidly moved copy ends elsewhere", tag)
+        ctx.count("align.pose-independence-checked")
+    ctx.case(["ens-align", start.tolist(), idxs, refc.tolist(), None if vec is None else vec.tolist()], nontrivial=True)
+    ctx.count("ens.align")
+    ctx.count(f"align.n_mappings={len(idxs)}")
+    # single molecule
+    mol = G.build_molecule(ml, els, edges, start[0], name="am")
+    startm = mol.coords.copy()
+    retm, callsm = run_align(mol)
+    finalm = mol.coords.copy()
+    tagm = dict(tag, op="Molecule.align_to_ref_coords", coords=startm.tolist(), returned=float(retm))
+    d_ok, v_ok = G.rigid_same(startm, finalm, quads)
+    if not d_ok:
+        ctx.violation("C11:align-changes-distances", "Molecule.align_to_ref_coords changed interatomic distances", tagm)
+    if not v_ok:
+        ctx.violation("C11:align-changes-handedness", "Molecule.align_to_ref_coords changed signed volumes", tagm)
+    achieved_ok(finalm, retm, callsm, "molecule", tagm)
+    if len(callsm) == len(idxs):
+        reqm = (f"align {n} {ftoks(startm)} {kcore} {ftoks(refc)} " + ("0 " if vec is None else f"1 {ftoks(vec)} ") + f"{len(idxs)} " +
+                " ".join(f"{len(ix)} {' '.join(map(str, ix))} {ftoks(c[1])} {fbits(c[2])}" for ix, c in zip(idxs, callsm)))
+
+        def cbm(line, out, tagm=tagm, finalm=finalm, retm=retm):
+            p = out.split()
+            if len(p) < 4 or p[0] != "ok":
+                ctx.disagree("Molecule.align: model gives no result", tagm, "ok", out[:200])
+                return
+            r = G.to_float(Fraction(p[1][2:]))
+            arr = G.model_array(" ".join(p[3:]), "c", finalm.shape)
+            if abs(r - float(retm)) > 1e-12 or arr is None or not G.close(finalm, arr, 1e-9):
+                ctx.disagree("Molecule.align_to_ref_coords differs from the model", tagm, [float(retm), finalm.tolist()], out[:1500])
+        B.add(reqm, cbm)
+    if not G.close(finalm, final[0], 1e-9):
+        ctx.disagree("Molecule.align_to_ref_coords and ConformerEnsemble.align_to_ref_coords differ on the same input", tagm, finalm.tolist(), final[0].tolist())
+    ctx.case(["mol-align", startm.tolist(), idxs], nontrivial=True)
+    ctx.count("mol.align")
+    if sample:
+        ctx.sample({"op": "align", "n_atoms": n, "n_conformers": nc, "idxs": idxs, "returned": [float(x) for x in ret]})
+
+
+def multisite_align_cases(ctx, B, ml, sample=False):
+    """One molecule holding 2–3 copies of a core fragment at different places and in different poses (plus other atoms);
+    the candidate mappings are the SITES (plus, sometimes, a symmetry permutation of one); the reference is taken from one
+    site, and that site is put at every position of the candidate list."""
+    rng = ctx.rng
+    kc = rng.range(4, 5)
+    for _ in range(50):
+        core = G.random_coords(rng, kc, span=2)
+        if np.linalg.svd(core - core.mean(axis=0), compute_uv=False)[-1] > 0.5:
+            break
+    nsite = rng.range(2, 3)
+    nlink = rng.range(1, 4)
+    best = rng.below(nsite)
+    pts = []
+    for sidx in range(nsite):
+        _, Rs = rational_rotation(rng)
+        shift = np.array([sidx * 7.0, rng.range(-16, 16) / 8, rng.range(-16, 16) / 8])
+        noise = np.zeros((kc, 3)) if sidx == best else np.array([[rng.range(-16, 16) / 64 for _ in range(3)] for _ in range(kc)])
+        pts.append(core @ Rs + shift + noise)
+    link = G.random_coords(rng, nlink, span=3) + np.array([3.5, 6.0, 0.0])
+    allpts = np.vstack(pts + [link])
+    n = len(allpts)
+    perm = rng.shuffle(list(range(n)))                     # new position -> old index
+    inv = {old: new for new, old in enumerate(perm)}
+    coords = allpts[perm]
+    sites = [[inv[sidx * kc + j] for j in range(kc)] for sidx in range(nsite)]
+    els = [rng.choice(ELEMENTS) for _ in range(n)]
+    edges = [(i, i + 1) for i in range(n - 1)]
+    nc = rng.range(1, 3)
+    confs = []
+    for c in range(nc):
+        if c == 0:
+            cc = coords
+        else:
+            _, Rc = rational_rotation(rng)
+            cc = coords @ Rc + np.array([rng.range(-24, 24) / 8 for _ in range(3)])
+        confs.append(G.build_molecule(ml, els, edges, cc, name="ms"))
+    _, Rf = rational_rotation(rng)
+    refc = coords[sites[best]] @ Rf + np.array([[rng.range(-2, 2) / 128 for _ in range(3)] for _ in range(kc)])
+    refc = refc - refc.mean(axis=0)
+    others = [s for i, s in enumerate(sites) if i != best]
+    for pos in range(nsite):
+        idxs = [list(x) for x in others]
+        idxs.insert(pos, list(sites[best]))
+        if rng.chance(1, 3):
+            extra = rng.shuffle(list(sites[best]))
+            idxs.insert(rng.below(len(idxs) + 1), extra)   # a symmetry mapping of the same site as well
+        vec = None if rng.chance(1, 2) else np.array([rng.range(-16, 16) / 8 for _ in range(3)])
+        ctx.count(f"align.multisite.sites={nsite}.reference-site-at-position={pos}")
+        align_checks(ctx, B, ml, els, edges, confs, idxs, refc, vec, sample=(sample and pos == 0), best=pos)
+
+
 def sec_ensembles(ctx, B, nens):
     import molli as ml
     rng = ctx.rng
@@ -702,77 +888,10 @@ def sec_ensembles(ctx, B, nens):
         _, Rf = rational_rotation(rng)
         refc = ens.coords[0][core] @ Rf + np.array([[rng.range(-8, 8) / 64 for _ in range(3)] for _ in range(kcore)])
         refc = refc - refc.mean(axis=0)
-        refmol = G.build_molecule(ml, ["C"] * kcore, [(i, i + 1) for i in range(kcore - 1)], refc, name="ref")
-        refsub = refmol.substructure(list(range(kcore)))
         vec = None if rng.chance(1, 2) else np.array([rng.range(-16, 16) / 8 for _ in range(3)])
-        target_ref = refc + (0 if vec is None else vec)
-
-        def run_align(obj, is_ens):
-            calls = []
-
-            def func(P, Q):
-                R, r = G.kabsch(np.array(P), np.array(Q))
-                calls.append((np.array(P, dtype=float).copy(), R.copy(), r))
-                return R, r
-            ret = obj.align_to_ref_coords(func, idxs, refsub, vec)
-            return ret, calls
-
-        start = ens.coords.copy()
-        ret, calls = run_align(ens, True)
-        final = ens.coords.copy()
-        tag = {"op": "ens.align_to_ref_coords", "coords": start.tolist(), "idxs": idxs, "ref": refc.tolist(),
-               "vec": None if vec is None else vec.tolist(), "returned": [float(x) for x in ret]}
-        rigid_all(start, final, tag, "align")
-        for kc in range(nc):
-            achieved = min(G.rmsd(final[kc][ix], target_ref) for ix in idxs)
-            if abs(achieved - float(ret[kc])) > 1e-8:
-                ctx.violation("C11:align-reports-wrong-rmsd", f"conformer {kc}: returned {float(ret[kc])!r}, achieved {achieved!r}", tag)
-            cands = calls[kc * len(idxs):(kc + 1) * len(idxs)]
-            req = (f"align {n} {ftoks(start[kc])} {kcore} {ftoks(refc)} " + ("0 " if vec is None else f"1 {ftoks(vec)} ") + f"{len(idxs)} " +
-                   " ".join(f"{len(ix)} {' '.join(map(str, ix))} {ftoks(c[1])} {fbits(c[2])}" for ix, c in zip(idxs, cands)))
-
-            def cb(line, out, kc=kc, tag=tag, final=final, ret=ret):
-                p = out.split()
-                if len(p) < 4 or p[0] != "ok":
-                    ctx.disagree("align: model gives no result", tag, "ok", out[:200])
-                    return
-                r = G.to_float(Fraction(p[1][2:]))
-                arr = G.model_array(" ".join(p[3:]), "c", final[kc].shape)
-                if abs(r - float(ret[kc])) > 1e-12 or arr is None or not G.close(final[kc], arr, 1e-9):
-                    ctx.disagree("align_to_ref_coords differs from the model", tag, [float(ret[kc]), final[kc].tolist()], out[:1500])
-            B.add(req, cb)
-        # pose independence (sampled): another initial pose of the same ensemble ends in the same place
-        _, Rp = rational_rotation(rng)
-        ens2 = ml.ConformerEnsemble(confs)
-        ens2.coords = start @ Rp + np.array([rng.range(-40, 40) / 8 for _ in range(3)])
-        ret2, _ = run_align(ens2, True)
-        sv = np.linalg.svd((start[0][core] - start[0][core].mean(axis=0)), compute_uv=False)
-        if sv[-1] > 0.3:  # the core spans 3-D: the optimal rotation is unique
-            if not G.close(ens2.coords, final, 1e-6) or not G.close(np.array(ret2, dtype=float), np.array(ret, dtype=float), 1e-6):
-                ctx.violation("C11:align-depends-on-initial-pose", "aligning a rigidly moved copy ends elsewhere", tag)
-            ctx.count("align.pose-independence-checked")
-        ctx.case(["ens-align", start.tolist(), idxs, refc.tolist(), None if vec is None else vec.tolist()], nontrivial=True)
-        ctx.count("ens.align")
-        # single molecule
-        mol = G.build_molecule(ml, els, edges, start[0], name="am")
-        startm = mol.coords.copy()
-        retm, callsm = run_align(mol, False)
-        finalm = mol.coords.copy()
-        tagm = dict(tag, op="Molecule.align_to_ref_coords", coords=startm.tolist(), returned=float(retm))
-        d_ok, v_ok = G.rigid_same(startm, finalm, quads)
-        if not d_ok:
-            ctx.violation("C11:align-changes-distances", "Molecule.align_to_ref_coords changed interatomic distances", tagm)
-        if not v_ok:
-            ctx.violation("C11:align-changes-handedness", "Molecule.align_to_ref_coords changed signed volumes", tagm)
-        achieved = min(G.rmsd(finalm[ix], target_ref) for ix in idxs)
-        if abs(achieved - float(retm)) > 1e-8:
-            ctx.violation("C11:align-reports-wrong-rmsd", f"molecule: returned {float(retm)!r}, achieved {achieved!r}", tagm)
-        if not G.close(finalm, final[0], 1e-9):
-            ctx.disagree("Molecule.align_to_ref_coords and ConformerEnsemble.align_to_ref_coords differ on the same input", tagm, finalm.tolist(), final[0].tolist())
-        ctx.case(["mol-align", startm.tolist(), idxs], nontrivial=True)
-        ctx.count("mol.align")
-        if ei == 0:
-            ctx.sample({"op": "align", "n_atoms": n, "n_conformers": nc, "idxs": idxs, "returned": [float(x) for x in ret]})
+        align_checks(ctx, B, ml, els, edges, confs, idxs, refc, vec, sample=(ei == 0))
+        # ---- alignment on molecules that contain SEVERAL DISTINCT occurrences of the core ----
+        multisite_align_cases(ctx, B, ml, sample=(ei == 0))
 
 
 def run(ctx):
@@ -784,7 +903,10 @@ def run(ctx):
                 "translate, transform, substructure edits on random subsets — also through handles created BEFORE the parent was edited "
                 "(atoms deleted below/above the selection, atom added, coordinate table re-assigned) —, dihedral and rotate_dihedral on EVERY rotatable acyclic "
                 "bond in both directions; ensembles of 1–4 conformers: translate (1-d, 2-d), rotate (matrix, stack), center_at_core, "
-                "center_at_atom, align_to_ref_coords (Kabsch callback, 1–2 index lists, with/without vec) + Molecule.align_to_ref_coords. "
+                "center_at_atom, align_to_ref_coords (Kabsch callback, 1–2 index lists, with/without vec) + Molecule.align_to_ref_coords; "
+                "alignment also on molecules holding 2–3 DISTINCT occurrences of the core (different places and poses, the others perturbed), the "
+                "reference taken from one site which is put at EVERY position of the candidate list (optionally plus a symmetry mapping), 1–3 conformers; "
+                "the achieved RMSD is recomputed from the final coordinates for the mapping the call claims (the one whose reported value is returned). "
                 "Non-trivial: the operation is not the identity (a ≠ b, angle ≠ 0, v ≠ 0, target ≠ current dihedral); distinct by input.")
     ctx.assumptions += [
         "A-fp: float64 evaluation of the rotation/translation expressions is within 1e-9 (absolute, relative above 1) of exact arithmetic on the generated inputs; within 1e-6 in the near-antiparallel neighbourhood where the code divides by 1 + c ≥ 1e-8",
